@@ -28,8 +28,11 @@ ASSUMPTIONS = [
     "earlier points}, auto_index and flush_on_insert symbolic booleans; 1 or 2 points per call, in or out of time order",
     "asserted (a): no read/iteration on the handle; every write starts at an offset >= L; truncate never below the old L; bytes written "
     "== the csv encoding of the points; the sequence of I/O calls equals the sequence observed for an EMPTY file (L = pos = 0)",
-    "(b) real files: 0, 1, 2, 3 and 160 stored points (> 8 KiB), an early-stopping get()/contains()/partial iteration before the insert; old bytes are a prefix "
-    "of the new bytes; the recorded I/O call list of the insert is identical for every database size",
+    "(a) also: a symbolic number of bytes of earlier inserts still in the user-space write buffer (flush_on_insert off): os.fstat / "
+    "os.path.getsize / os.stat answer with the on-disk length, seek/flush/truncate/close drain the buffer",
+    "(b) real files: 0, 1, 2, 3 and 160 stored points (> 8 KiB), an early-stopping get()/contains()/partial iteration before the insert; "
+    "flush_on_insert on/off; three inserts back to back: each on-disk state is a prefix of the next, after close() the old bytes are a "
+    "proper prefix and the reopened database ends with the three points; the recorded I/O call list is identical for every database size",
     "outside the claim: storage classes other than CSVStorage; OS-level behaviour of O_APPEND",
 ]
 BOUNDS = {"L": "unbounded", "pos": "unbounded"}
@@ -37,18 +40,28 @@ T0 = 1_600_000_000_000_000
 
 
 class FakeFile:
-    """Abstract text file.  `log` records (call, offset, size)."""
+    """Abstract text file opened r+.  `log` records the calls.
 
-    def __init__(self, L, pos):
+    L    logical length (what the process would read back: disk + its own write buffer)
+    disk length on disk: L - B for a symbolic number B >= 0 of bytes still buffered by an earlier
+         insert with flush_on_insert=False (B = 0 after any flush/seek/truncate, as for TextIOWrapper)
+    """
+
+    def __init__(self, L, pos, buffered=0):
         self.L0 = L
         self.L = L
+        self.disk = L - buffered
         self.pos = pos
         self.log = []
         self.written = []
         self.closed = False
         self.name = "<fake>"
 
+    def _sync(self):
+        self.disk = self.L
+
     def seek(self, off, whence=0):
+        self._sync()  # TextIOWrapper.seek() flushes pending writes first
         if whence == 0:
             self.pos = off
         elif whence == 2:
@@ -73,16 +86,19 @@ class FakeFile:
         return n
 
     def flush(self):
+        self._sync()
         self.log.append("flush")
 
     def fileno(self):
-        return -1
+        return FAKE_FD
 
     def truncate(self, size=None):
+        self._sync()
         size = self.pos if size is None else size
         self.log.append("truncate")
         require(size >= self.L0, lambda: f"insert truncated the file to {show(size)} < existing length {show(self.L0)}")
         self.L = size
+        self.disk = size
         return size
 
     def _read(self, *a):
@@ -95,8 +111,16 @@ class FakeFile:
         self._read()
 
     def close(self):
+        self._sync()
         self.log.append("close")
         self.closed = True
+
+
+FAKE_FD = -7
+
+
+def SymBoolNot(b):
+    return (not b) if isinstance(b, bool) else ~b
 
 
 def _max(a, b):
@@ -107,15 +131,52 @@ def _max(a, b):
     return max(a, b)
 
 
+class _Stat:
+    def __init__(self, size):
+        self.st_size = size
+
+
+class _FakePath:
+    def __init__(self, hdl):
+        self._h = hdl
+
+    def __getattr__(self, n):
+        return getattr(os.path, n)
+
+    def getsize(self, p):
+        self._h.log.append("getsize")
+        return self._h.disk
+
+
 class _FakeOS:
-    def __init__(self, log):
-        self._log = log
+    """os as seen by tinyflux.storages: fsync is recorded, size queries answer with the ON-DISK length
+    of the fake file (buffered bytes are not on disk yet)."""
+
+    def __init__(self, hdl):
+        self._h = hdl
+        self._log = hdl.log
+        self.path = _FakePath(hdl)
 
     def __getattr__(self, n):
         return getattr(os, n)
 
     def fsync(self, fd):
         self._log.append("fsync")
+
+    def fstat(self, fd):
+        if fd == FAKE_FD:
+            self._log.append("fstat")
+            return _Stat(self._h.disk)
+        return os.fstat(fd)
+
+    def stat(self, p, *a, **k):
+        self._log.append("stat")
+        return _Stat(self._h.disk)
+
+    def ftruncate(self, fd, size):
+        if fd == FAKE_FD:
+            return self._h.truncate(size)
+        return os.ftruncate(fd, size)
 
 
 def _pt(i, t):
@@ -139,7 +200,7 @@ def _scenario(params, make_handle):
     hdl = make_handle()
     db._storage._handle = hdl
     old_os = st.os
-    st.os = _FakeOS(hdl.log)
+    st.os = _FakeOS(hdl)
     try:
         if idx == "invalid":
             db._index.invalidate()
@@ -176,7 +237,14 @@ def h_fake(params):
         L = sym_int("L", 0)
         pos = sym_int("pos", 0)
         assume(pos <= L)
-        hdl, db = _scenario(p, lambda: FakeFile(L, pos))
+        # bytes of earlier inserts still in the write buffer (possible only without flush_on_insert;
+        # then the cursor is at the logical end: nothing was read since)
+        B = sym_int("buffered", 0)
+        assume(B <= L)
+        if bool(B > 0):
+            assume(SymBoolNot(p["_flush"]))
+            assume(pos == L)
+        hdl, db = _scenario(p, lambda: FakeFile(L, pos, B))
         require(hdl.log == ref.log, lambda: f"I/O calls depend on the file size / cursor: {hdl.log} vs {ref.log} for an empty file")
         require("".join(hdl.written) == "".join(ref.written), lambda: "bytes written depend on the file size")
         rows = list(csv.reader(io.StringIO("".join(hdl.written), newline="")))
@@ -194,13 +262,14 @@ def h_real(params):
 
     def body(h):
         ai = sym_bool("auto_index")
+        flush = sym_bool("flush_on_insert")
         order = choose("order", 2)
         pre_read = choose("pre_read", 5)
         logs = []
         sizes = [0, 1, 2, 3, 160]  # 160 rows: > 8 KiB, beyond one read-ahead chunk of the text layer
         for n in sizes:
             path = os.path.join(os.path.dirname(h.path), f"real{n}.csv")
-            db = TinyFlux(path, auto_index=ai)
+            db = TinyFlux(path, auto_index=ai, flush_on_insert=flush)
             if n:
                 db.insert_multiple([_pt(i, T0 + i * 10) for i in range(n)])
             # reads that leave the cursor somewhere inside the file
@@ -214,14 +283,21 @@ def h_real(params):
             elif pre_read == 4:
                 db.count(TagQuery().k == "nomatch")
             before = files.read_bytes(path)
+            chain = [before]
             files.install()
             try:
                 # the storage was created before install(): wrap its handle so calls are recorded
                 db._storage._handle = files.PFile(db._storage._handle, "primary")
                 files.CTL.reset()
                 files.CTL.active = True
-                t = T0 + 1000 if order == 0 else T0 - 1000
-                db.insert(_pt(1, t))
+                # three inserts back to back (without flush_on_insert the earlier rows are still buffered
+                # when the next one is appended)
+                for j in range(3):
+                    t = T0 + 1000 + j if order == 0 else T0 - 1000 - j
+                    db.insert(_pt(1, t))
+                    files.CTL.active = False
+                    chain.append(files.read_bytes(path))
+                    files.CTL.active = True
                 files.CTL.active = False
                 log = list(files.CTL.log)
             finally:
@@ -229,16 +305,25 @@ def h_real(params):
                 h_ = db._storage._handle
                 files.uninstall()
                 db._storage._handle = h_._f if isinstance(h_, files.PFile) else h_
-            after = files.read_bytes(path)
-            require(after[: len(before)] == before, lambda: f"n={n}: previous file content is not a prefix of the new content: {before!r} -> {after!r}")
-            require(len(after) > len(before), lambda: f"n={n}: insert did not append")
+            for j in range(1, len(chain)):
+                a, b = chain[j - 1], chain[j]
+                require(b[: len(a)] == a, lambda: f"n={n}: file content before insert #{j} is not a prefix of the content after it: {a[-80:]!r} -> {b[-80:]!r}")
+                if flush:
+                    require(len(b) > len(a), lambda: f"n={n}: insert #{j} did not append although flush_on_insert is on")
             require(not any(".read" in c or ".iter" in c for c in log), lambda: f"n={n}: insert read from the file: {log}")
             logs.append([c.split("(")[0] for c in log])
+            db.close()
+            after = files.read_bytes(path)
+            require(after[: len(before)] == before and len(after) > len(before), lambda: f"n={n}: after close() the previous content is not a proper prefix of the file")
             # and the data is really there
             db2 = TinyFlux(path, auto_index=False)
-            require(len(db2) == n + 1, lambda: f"n={n}: reopened database has {len(db2)} rows")
+            got = db2.all(sorted=False)
+            require(len(got) == n + 3, lambda: f"n={n}: reopened database has {len(got)} rows, expected {n + 3}")
+            want = [T0 + 1000 + j if order == 0 else T0 - 1000 - j for j in range(3)]
+            from ..symtime import us_of
+
+            require([us_of(p.time) for p in got[-3:]] == want, lambda: f"n={n}: the three inserted rows read back as {[us_of(p.time) for p in got[-3:]]}")
             db2.close()
-            db.close()
         for j, n in enumerate(sizes[1:], 1):
             require(logs[j] == logs[0], lambda: f"I/O calls of one insert depend on the database size: {logs[0]} (empty) vs {logs[j]} ({n} points)")
         if params.get("twin"):
